@@ -65,6 +65,9 @@ MISBEHAVIOUR = {
     "invalid_utf8": b"\xff\xfe\x00\n",
     "half_line_then_drop": b'{"__kind__": "enqueue_ta',
     "drop": b"",
+    # asks for the state table tens of thousands of times, never reads an answer and stays connected: its unread
+    # answers fill every buffer on the way and the pool's handler for this client stalls - only that one may
+    "flood_no_read": b'{"__kind__": "get_task_states"}\n' * 40000,
 }
 
 
@@ -90,6 +93,7 @@ def scenario(cores, ntasks, misbehave):
                                cwd=proj, env=env, stdout=subprocess.PIPE, stderr=subprocess.PIPE, start_new_session=True)
     obs = {"started": False, "run_exit": -1, "max_live": 0, "status_ok": False, "all_completed": False, "served_after": False,
            "bad_sent": list(misbehave), "cancel_exit": -1}
+    held = []
     try:
         def up():
             try:
@@ -109,6 +113,18 @@ def scenario(cores, ntasks, misbehave):
         # a misbehaving client, in the middle of things
         for kind in misbehave:
             try:
+                if kind == "flood_no_read":
+                    s = socket.socket()
+                    s.setsockopt(socket.SOL_SOCKET, socket.SO_RCVBUF, 4096)
+                    s.settimeout(3)
+                    s.connect(("127.0.0.1", port))
+                    held.append(s)
+                    try:
+                        s.sendall(MISBEHAVIOUR[kind])
+                    except OSError:
+                        pass        # the pool stopped reading from this client: as intended
+                    time.sleep(0.3)
+                    continue
                 s = socket.create_connection(("127.0.0.1", port), timeout=2)
                 if MISBEHAVIOUR[kind]:
                     s.sendall(MISBEHAVIOUR[kind])
@@ -152,6 +168,11 @@ def scenario(cores, ntasks, misbehave):
     except Unanswered as exc:
         obs["unanswered"] = str(exc)     # the remaining observations keep their "not seen" defaults
     finally:
+        for s in held:
+            try:
+                s.close()
+            except OSError:
+                pass
         try:
             os.killpg(workers.pid, 9)
         except OSError:
